@@ -6,5 +6,7 @@ def run(ctx, rep):
     runloop.r07a(ctx, rep)
     runloop.r07b(ctx, rep)
     runloop.r_stack_monotone(ctx, rep, "R07d")
+    from . import popbalance
+    popbalance.r01b(ctx, rep, rule="R07c")
     rep.not_decided += ["that the global definitions completed before a failure are the right ones",
                         "memory retained through the environment/accumulator registers of a failed evaluation (bounded: one frame)"]
